@@ -235,4 +235,58 @@ theorem items_buildOn (d : Nat) : ∀ (its : List (Path × Val)) (base : List (S
       have := step.1.append_right its
       simpa using this
 
+/-! ### the shape of a tree all of whose items have paths of one length -/
+
+theorem wf_of_mem : ∀ (kvs : List (String × Val)), wfKVs kvs = true → ∀ kv ∈ kvs, wf kv.2 = true
+  | [], _, kv, h => by simp at h
+  | (k, v) :: kvs, hw, kv, h => by
+      simp only [wfKVs, Bool.and_eq_true] at hw
+      rcases List.mem_cons.1 h with rfl | h
+      · exact hw.1
+      · exact wf_of_mem kvs hw.2 kv h
+
+theorem noEmpty_of_mem : ∀ (kvs : List (String × Val)), noEmptyKVs kvs = true → ∀ kv ∈ kvs,
+    kv.2 ≠ .dict [] ∧ noEmpty kv.2 = true
+  | [], _, kv, h => by simp at h
+  | (k, v) :: kvs, hn, kv, h => by
+      rw [noEmptyKVs_cons] at hn
+      rcases List.mem_cons.1 h with rfl | h
+      · exact ⟨hn.1, hn.2.1⟩
+      · exact noEmpty_of_mem kvs hn.2.2 kv h
+
+/-- distinct keys in every branch, no empty branch below the root, every listed path of length `d`: the tree has uniform
+depth `d` (for `d = 0` the tree must not be the empty dict, which has no items at all) -/
+theorem Uni_of_items : ∀ (d : Nat) (t : Val), wf t = true → noEmpty t = true → (∀ pv ∈ items t, pv.1.length = d) →
+    (d = 0 → t ≠ .dict []) → Uni d t
+  | 0, t, _, hn, hl, h0 => by
+      rw [Uni_zero]
+      intro s e
+      subst e
+      have hs : s ≠ [] := fun e => h0 rfl (by rw [e])
+      have hne := itemsKVs_ne_nil s (by simpa [noEmpty] using hn) hs
+      cases hi : itemsKVs s with
+      | nil => exact hne hi
+      | cons pv rest =>
+        have h1 := hl pv (by simp [items, hi])
+        have h2 := itemsKVs_path_ne s pv (by simp [hi])
+        exact h2 (List.eq_nil_of_length_eq_zero h1)
+  | d + 1, t, hw, hn, hl, _ => by
+      cases t with
+      | dict kvs =>
+        rw [Uni_succ_dict]
+        simp only [wf, Bool.and_eq_true, decide_eq_true_eq] at hw
+        refine ⟨hw.1, ?_⟩
+        intro kv hkv
+        have hne := noEmpty_of_mem kvs (by simpa [noEmpty] using hn) kv hkv
+        refine Uni_of_items d kv.2 (wf_of_mem kvs hw.2 kv hkv) hne.2 ?_ (fun _ => hne.1)
+        intro pv hpv
+        have : (kv.1 :: pv.1, pv.2) ∈ items (.dict kvs) := by
+          simp only [items, itemsKVs_eq_flatMap, List.mem_flatMap, List.mem_map]
+          exact ⟨kv, hkv, pv, hpv, rfl⟩
+        have := hl _ this
+        simpa using this
+      | cell c => have := hl ([], .cell c) (by simp [items]); simp at this
+      | list c => have := hl ([], .list c) (by simp [items]); simp at this
+      | tuple c => have := hl ([], .tuple c) (by simp [items]); simp at this
+
 end Pyg.TreeTable
